@@ -95,13 +95,14 @@ def Mgr.set (m : Mgr R S) (x : Nat) (cs : List (Ctl R S)) : Mgr R S :=
 
 /-! ## the hypothesis under which an unchanged rule provably keeps its controller
 
-`NoSteal K new old`: no rule *earlier* in the new list is stat-reusable-but-unequal with an old controller
-whose rule occurs *later* in the new list.  It is decidable, and it is the classifier of the known finding
-`reuse-steals-controller`. -/
+`noStealB K new old`: no rule *earlier* in the new list is stat-reusable-but-unequal with an old controller
+whose rule occurs *later* in the new list (as it is, or as the constructor normalised it).  It is decidable, and it
+is the classifier of the known finding `reuse-steals-controller`. -/
 def noStealB (K : Calc R S) : List R → List (Ctl R S) → Bool
   | [], _ => true
   | r :: rs, old =>
-    (old.all fun c => !(K.sr c.rule r && !K.eq c.rule r) || rs.all fun r' => !K.eq c.rule r') && noStealB K rs old
+    (old.all fun c => !(K.sr c.rule r && !K.eq c.rule r)
+        || rs.all fun r' => !K.eq c.rule r' && !K.eq c.rule (K.norm r')) && noStealB K rs old
 
 /-! ## circuit breaker (`core/circuitbreaker/rule.go`) -/
 
@@ -368,5 +369,87 @@ def flowRecordPass (now : Nat) (c : Ctl FlowRule FlowSt) : Ctl FlowRule FlowSt :
   match c.st.stat with
   | .own a sc iv => { c with st := { c.st with stat := .own (LA.addAt a now 1).1 sc iv } }
   | _ => c
+
+/-! ## hotspot (`core/hotspot/rule.go`), QPS metric -/
+
+structure HotRule where
+  id : Nat
+  res : Nat
+  mtype : Nat        -- MetricType: 0 Concurrency, 1 QPS
+  cb : Nat           -- ControlBehavior: 0 Reject, 1 Throttling
+  pidx : Nat         -- ParamIndex
+  thr : Nat
+  maxQ : Nat         -- MaxQueueingTimeMs
+  burst : Nat
+  dur : Nat          -- DurationInSec
+  cap : Nat          -- ParamsMaxCapacity
+  items : Nat        -- SpecificItems: 0 = nil map, 1 = empty map, 2 = {sval ↦ sthr}
+  sval : Nat
+  sthr : Nat
+deriving Repr, DecidableEq
+
+/-- `Rule.Equals` (`reflect.DeepEqual` on the item maps tells a nil map from an empty one) -/
+def HotRule.eq (o n : HotRule) : Bool :=
+  o.res == n.res && o.mtype == n.mtype && o.cb == n.cb && o.cap == n.cap && o.pidx == n.pidx && o.thr == n.thr
+    && o.dur == n.dur && o.items == n.items && (o.items != 2 || (o.sval == n.sval && o.sthr == n.sthr))
+    && (if o.cb == 0 then o.burst == n.burst else if o.cb == 1 then o.maxQ == n.maxQ else false)
+
+def HotRule.sr (o n : HotRule) : Bool :=
+  o.res == n.res && o.cb == n.cb && o.cap == n.cap && o.dur == n.dur && o.mtype == n.mtype
+
+def HotRule.valid (r : HotRule) : Bool := !(r.mtype == 1 && r.dur == 0)
+
+/-- `newBaseTrafficShapingControllerWithMetric` replaces a nil `SpecificItems` by an empty map in the rule object -/
+def HotRule.norm (r : HotRule) : HotRule := if r.items = 0 then { r with items := 1 } else r
+
+/-- `ParamsMetric` (QPS): per-value last-fill time and remaining tokens.  All mutable state of a hotspot controller
+    lives here, so a stat-reusing rebuild keeps every counter. -/
+structure HotSt where
+  times : List (Nat × Nat) := []
+  tokens : List (Nat × Nat) := []
+deriving Repr
+
+def hotCalc : Calc HotRule HotSt where
+  eq := HotRule.eq
+  sr := HotRule.sr
+  norm := HotRule.norm
+  fresh := fun _ _ => {}
+  reuse := fun _ old _ => old
+
+def kvGet (xs : List (Nat × Nat)) (k : Nat) : Option Nat := (xs.find? (·.1 == k)).map (·.2)
+def kvSet (xs : List (Nat × Nat)) (k v : Nat) : List (Nat × Nat) := (k, v) :: xs.filter (·.1 != k)
+
+/-- `rejectTrafficShapingController.PerformChecking` (QPS, batch 1, no cache eviction): `true` = passed -/
+def hotCheckOne (now : Nat) (arg : Nat) (c : Ctl HotRule HotSt) : Bool × Ctl HotRule HotSt :=
+  let tokenCount := if c.rule.items = 2 && c.rule.sval = arg then c.rule.sthr else c.rule.thr
+  if tokenCount = 0 then (false, c) else
+  let maxCount := tokenCount + c.rule.burst
+  match kvGet c.st.times arg with
+  | none =>
+    (true, { c with st := { times := kvSet c.st.times arg now,
+                            tokens := if (kvGet c.st.tokens arg).isSome then c.st.tokens else kvSet c.st.tokens arg (maxCount - 1) } })
+  | some last =>
+    let passTime := now - last
+    if passTime > c.rule.dur * 1000 then
+      match kvGet c.st.tokens arg with
+      | none => (true, { c with st := { times := kvSet c.st.times arg now, tokens := kvSet c.st.tokens arg (maxCount - 1) } })
+      | some rest =>
+        let toAdd := passTime * tokenCount / (c.rule.dur * 1000)
+        if toAdd + rest > maxCount then
+          (true, { c with st := { times := kvSet c.st.times arg now, tokens := kvSet c.st.tokens arg (maxCount - 1) } })
+        else if toAdd + rest = 0 then (false, c)
+        else (true, { c with st := { times := kvSet c.st.times arg now, tokens := kvSet c.st.tokens arg (toAdd + rest - 1) } })
+    else
+      match kvGet c.st.tokens arg with
+      | some rest => if rest ≥ 1 then (true, { c with st := { c.st with tokens := kvSet c.st.tokens arg (rest - 1) } }) else (false, c)
+      | none => (false, c)     -- unreachable without eviction (the code would spin)
+
+/-- `hotspot.Slot.Check`: controllers in order, the first refusal ends the scan -/
+def hotScan (now : Nat) (arg : Nat) : List (Ctl HotRule HotSt) → Option Nat × List (Ctl HotRule HotSt)
+  | [] => (none, [])
+  | c :: cs =>
+    match hotCheckOne now arg c with
+    | (false, c') => (some c.rule.id, c' :: cs)
+    | (true, c') => let (b, cs') := hotScan now arg cs; (b, c' :: cs')
 
 end Sentinel.Reuse
